@@ -11,7 +11,7 @@ sys.path.insert(0, _here)
 HOOK_COMMITS = ["350c2fb"]
 
 # properties whose check is finished and reviewed: only these are listed as checks in MANIFEST.json
-READY = ["C01", "C02", "C03", "C04", "C05", "C06", "C07", "C08", "C09", "C10", "C11", "C12", "C14", "C15", "C16", "C17", "C19", "C20"]
+READY = ["C01", "C02", "C03", "C04", "C05", "C06", "C07", "C08", "C09", "C10", "C11", "C12", "C13", "C14", "C15", "C16", "C17", "C18", "C19", "C20"]
 
 # properties deliberately not claimed (id -> reason); anything else missing from PROPS is "not built yet"
 NOT_APPLICABLE = {}
